@@ -1,5 +1,6 @@
 import PromModel.Suites.RaceSuite
 import PromProofs.CompactionProgress
+import PromProofs.CompactionExact
 /-
   C06 — Queries racing with compaction see each sample exactly once.
 
@@ -165,6 +166,28 @@ theorem waits_enabled_when_readers_closed (σ : State) (hreach : Reachable σ) (
       ∧ ∀ p, blockFree σ p = true :=
   ⟨noLock_of_quiet σ hq, headWait_of_quiet σ (reachable_inv σ hreach) hq,
    oooWait_of_quiet σ (reachable_inv σ hreach) hq, blockFree_of_quiet σ hq⟩
+
+theorem reachable_cinv (σ : State) (h : Reachable σ) : CInv σ := by
+  obtain ⟨data, hm, lo, hi, acts, _, hrun⟩ := h
+  exact run_cinv _ σ acts (init_cinv data hm lo hi) hrun
+
+/-- **model_read_exact** (the link between the model's `read` output and the judge's statement): in every
+    reachable state the view of a reader that started before any retention deletion is, as a set, exactly
+    `expected` — the judge's definition of the right answer: the committed samples of its range — and has
+    no repetitions. -/
+theorem model_read_exact (σ : State) (hreach : Reachable σ) (r : Reader) (hr : r ∈ σ.readers)
+    (hpc : r.pc = .reading) (hret : r.retired0 = []) :
+    (∀ s, s ∈ view σ r ↔ s ∈ expected σ.data r.lo r.hi) ∧ (view σ r).Nodup := by
+  refine ⟨?_, (never_duplicated σ hreach r hr hpc).1⟩
+  intro s
+  simp only [expected, List.mem_filter]
+  constructor
+  · intro hs
+    have := view_sub σ (reachable_cinv σ hreach) r hr s hs
+    simpa [inRange] using this
+  · rintro ⟨hs, hrange⟩
+    have hcount := (never_duplicated σ hreach r hr hpc).2 s hs (by simpa [inRange] using hrange) (by simp [hret])
+    exact List.count_pos_iff.mp (by omega)
 
 /-! ### Non-vacuity: a concrete schedule, and what the waits are for -/
 
